@@ -62,7 +62,14 @@ def _gen_coqproject():
 def _limits():
     # a runaway tactic must not take the machine down: 12 GB address space per coqc
     import resource
-    resource.setrlimit(resource.RLIMIT_AS, (12 << 30, 12 << 30))
+    try:
+        soft, hard = resource.getrlimit(resource.RLIMIT_AS)
+        want = 12 << 30
+        if hard != resource.RLIM_INFINITY and hard < want:
+            want = hard
+        resource.setrlimit(resource.RLIMIT_AS, (want, hard))
+    except Exception:
+        pass
 
 
 WARN = "-notation-overridden,-deprecated-hint-without-locality,-deprecated-instance-without-locality,-deprecated-syntactic-definition"
@@ -514,9 +521,9 @@ def standard_flow(ctx, cfg):
     searched = 0
     if (disagree or proof_broken) and not violations:
         # model/implementation disagreement or broken proof, but no concrete spec failure yet: search harder
-        ctx.log("searching for a failing input (10x budget): %s" % ("proof broken" if proof_broken else "%d disagreements" % len(disagree)))
-        for k in range(1, 4):
-            l2, c2, f2 = run_once(min(n * 4, 20000), ctx.seed + 7919 * k)
+        ctx.log("searching for a failing input (larger budget, other seeds): %s" % ("proof broken" if proof_broken else "%d disagreements" % len(disagree)))
+        for k in range(1, 1 + cfg.get("search_rounds", 2)):
+            l2, c2, f2 = run_once(cfg.get("search_n", min(n * 3, 20000)), ctx.seed + 7919 * k)
             searched += len(c2)
             of2, _ = handle(f2, c2, "search %d" % k)
             if violations:
